@@ -46,6 +46,7 @@ type variant struct {
 	Cfg     func(*config.Blockchain)
 	Flush   uint // bit i: flush after block i of the history (bit 0: after the preamble)
 	Restart uint // bit i: restart after block i
+	InBlock uint // bit i: a flush lands INSIDE AddBlock of block i (after its header part, hook H5)
 	Pool    bool // pool transactions of the coming block, of the one after it, and conflicting ones
 	GC      bool // run the GC step after every flush (needs RemoveUntraceableBlocks)
 }
@@ -294,7 +295,13 @@ func (sc *scenario) runVariant(h []int, v variant) (blocks int, rec *caseRec) {
 		if v.Pool {
 			sc.pool(n, b, h, i)
 		}
-		if err := n.BC.AddBlock(b); err != nil {
+		if v.InBlock&(1<<uint(i)) != 0 {
+			bc := n.BC
+			bc.VerifSetPointHook(func(int) { _ = bc.VerifPersist() })
+		}
+		err = n.BC.AddBlock(b)
+		n.BC.VerifSetPointHook(nil)
+		if err != nil {
 			return blocks, fail(i, "block rejected by the variant: "+err.Error(), nil)
 		}
 		blocks++
@@ -359,6 +366,8 @@ func variants(r *vk.Run, depth int) []variant {
 		{Name: "mem/flush-all", Backend: "mem", Flush: all},
 		{Name: "mem/restart-all", Backend: "mem", Restart: all},
 		{Name: "mem/pool", Backend: "mem", Pool: true, Flush: alt},
+		{Name: "mem/inblock-flush-restart", Backend: "mem", InBlock: all, Restart: all},
+		{Name: "bolt/inblock-flush", Backend: "bolt", InBlock: all &^ alt, Flush: alt, Restart: all},
 		{Name: "mem/latest", Backend: "mem", Cfg: latest, Flush: all, Restart: alt},
 		{Name: "mem/prune-gc", Backend: "mem", Cfg: prune, GC: true, Flush: all, Restart: all &^ alt},
 		{Name: "mem/noverify", Backend: "mem", Cfg: noverify, Flush: alt},
@@ -380,6 +389,42 @@ func variants(r *vk.Run, depth int) []variant {
 		}
 	}
 	return vs
+}
+
+func flipTemplates() []chainx.Tpl {
+	put := func(name, val string) chainx.Tpl {
+		return chainx.Tpl{Name: name, Build: func(w *chainx.World) ([]*transaction.Transaction, error) {
+			tx, err := w.URun(2, w.UA, []any{[]any{chainx.OpPut, []byte("flip"), []byte(val)}})
+			if err != nil {
+				return nil, err
+			}
+			return []*transaction.Transaction{tx}, nil
+		}}
+	}
+	del := chainx.Tpl{Name: "flip-del", Build: func(w *chainx.World) ([]*transaction.Transaction, error) {
+		tx, err := w.URun(3, w.UA, []any{[]any{chainx.OpDel, []byte("flip")}})
+		if err != nil {
+			return nil, err
+		}
+		return []*transaction.Transaction{tx}, nil
+	}}
+	return append([]chainx.Tpl{put("flip-a", "1"), put("flip-b", "2"), del}, chainx.TplByName("empty")...)
+}
+
+func flipVariants(depth int) []variant {
+	all := uint(1<<uint(depth+1)) - 1
+	alt := uint(0x55555555) & all
+	latest := func(c *config.Blockchain) { c.Ledger.KeepOnlyLatestState = true }
+	prune := func(c *config.Blockchain) {
+		c.Ledger.RemoveUntraceableBlocks = true
+		c.Ledger.GarbageCollectionPeriod = 1
+	}
+	return []variant{
+		{Name: "mem/prune-gc-flush-all", Backend: "mem", Cfg: prune, GC: true, Flush: all},
+		{Name: "mem/prune-gc-restart-alt", Backend: "mem", Cfg: prune, GC: true, Flush: all, Restart: alt},
+		{Name: "mem/latest-flush-alt", Backend: "mem", Cfg: latest, Flush: alt, Restart: all &^ alt},
+		{Name: "mem/archival-restart-all", Backend: "mem", Restart: all},
+	}
 }
 
 func tplNames(r *vk.Run) []string {
@@ -417,6 +462,12 @@ func TestCheck(t *testing.T) {
 			}
 			// plan A: the full alphabet, depth 2, all variants of the tier
 			scs = append(scs, &scenario{r: r, vs: variants(r, 2), fam: f, pad: p, tpls: chainx.TplByName(tplNames(r)...), depth: 2, tree: map[histKey]*treeNode{}})
+			if !f.Multi {
+				// plan C: delete-then-recreate across blocks (values flipping back and forth,
+				// unrelated blocks in between), depth 5, on the trie modes with reference
+				// counting / garbage collection and a restart-heavy archival control
+				scs = append(scs, &scenario{r: r, vs: flipVariants(5), fam: f, pad: p, tpls: flipTemplates(), depth: 5, tree: map[histKey]*treeNode{}})
+			}
 			if r.Thorough() {
 				// plan B: the quick alphabet, depth 3, the basic variants
 				scs = append(scs, &scenario{r: r, vs: variants(nil, 3), fam: f, pad: p, tpls: chainx.TplByName(tplNames(nil)...), depth: 3, tree: map[histKey]*treeNode{}})
@@ -437,7 +488,7 @@ func TestCheck(t *testing.T) {
 	var level [][]int
 	level = append(level, []int{})
 	var broken sync.Map
-	for d := 1; d <= 3; d++ {
+	for d := 1; d <= 5; d++ {
 		type job struct {
 			sc *scenario
 			h  []int
@@ -532,7 +583,7 @@ func TestCheck(t *testing.T) {
 		"traces_validated_against_impl": int(runs.Get()),
 		"histories":                     int(hist.Get()),
 		"distinct_state_roots":          roots.Len(),
-		"plans":                         "A: full alphabet of the tier, depth 2, all variants; B (thorough only): quick alphabet, depth 3, basic variants",
+		"plans":                         "A: full alphabet of the tier, depth 2, all variants; B (thorough only): quick alphabet, depth 3, basic variants; C (single families): value flip/delete/re-create alphabet, depth 5, pruning/GC/latest-state and restart variants",
 		"block_alphabet":                tplNames(r),
 		"families":                      []string{"single", "single-srih", "multi", "multi-srih"},
 		"preamble_pads":                 pads,
